@@ -13,6 +13,7 @@ import ModVerif.Proofs.ModfileC20Tree
 import ModVerif.Proofs.ModfileC20Stmts
 import ModVerif.Proofs.ModfileC20Lax
 import ModVerif.Proofs.ModfileC20Ignore
+import ModVerif.Proofs.ModfileC20ModFinal
 namespace ModVerif.Props.C20
 open ModVerif ModVerif.Modfile
 
@@ -307,6 +308,42 @@ theorem C20_violated_modulePath_module_block_header :
       Module.checkImportPath m.mod.path = .ok () ∧
       modulePath f8bInput ≠ m.mod.path :=
   Proofs.ModfileWitness.modulePathDisagrees_spec (by decide +kernel)
+
+/-- `modulePath_agrees_partial` — the last clause of C20 under the hypothesis that excludes exactly the
+    recorded findings.  If the strict parser (no fixer) accepts `x`, its module directive is a single
+    top-level line (`Expr.line l ∈ f.syn.stmts`, i.e. not a line of a `module ( … )` block) naming a valid
+    import path, and the line scanner skips every source line before the line of that directive
+    (`modulePathLine ln = none`: after cutting a `//` comment and trimming, `ln` does not consist of
+    `module`, white space and something more — every line that is not a `module␣…` look-alike), then
+    `ModulePath(x)` is the module path the strict parser reports.  The two `_violated` witnesses above are
+    exactly the two ways the last hypothesis fails on strictly accepted files: a block line `module …`
+    and the header `module (` of an empty block before the directive.
+    Proof (Proofs/ModfileC20{Lay,Top,ModTree,ModStr,Unquote,ModFinal}.lean): the lexer leaves only blanks
+    between tokens, a top-level line starts its source line and is followed by blanks and then a newline,
+    a `//` comment or the end of the input (`TopLay`); the module entry of an accepted file comes from a
+    line `module <tok>` (`module_line_of_strict`); a token that denotes a valid import path contains no
+    `//`, no newline, and starts and ends with a non-space ASCII byte (`tokOK_of_parseString`, for `"…"`
+    tokens via `unquote_facts`); hence `TrimSpace`, `Index "//"` and `Unquote` in the scanner recover exactly
+    that token (`modulePathLine_directive`), on the element `line - 1` of `strings.Split(x, "\n")`
+    (`splitOn_line`). -/
+theorem modulePath_agrees_partial (name x : Bytes) (f : File) (m : Module)
+    (h : parseToFile name x none true = .ok f) (hm : f.module = some m)
+    (hvalid : Module.checkImportPath m.mod.path = .ok ())
+    (htop : ∃ l, Expr.line l ∈ f.syn.stmts ∧ l.id = m.lineId ∧
+      ∀ j, j + 1 < l.start.line → ∀ ln, (splitOn 10 x)[j]? = some ln → modulePathLine ln = none) :
+    modulePath x = m.mod.path :=
+  Proofs.ModfileC20.modulePath_agrees name x f m h hm hvalid htop
+
+/-- Non-vacuity of `modulePath_agrees_partial`: a file with a doc comment, a quoted module path with a
+    trailing comment and other directives satisfies all hypotheses (and the scanner has to skip a comment
+    line first). -/
+example :
+    let x := B "// Deprecated: no\n  module\t\"example.com/m/v2\" // c\r\n\ngo 1.21\nrequire (\n\ta.b/c v1.0.0\n)\n"
+    ∃ f m, parseToFile (B "go.mod") x none true = .ok f ∧ f.module = some m ∧
+      Module.checkImportPath m.mod.path = .ok () ∧
+      ∃ l, Expr.line l ∈ f.syn.stmts ∧ l.id = m.lineId ∧
+        ∀ j, j + 1 < l.start.line → ∀ ln, (splitOn 10 x)[j]? = some ln → modulePathLine ln = none :=
+  Proofs.ModfileC20.modulePathHyps_spec (by decide +kernel)
 
 /-- Non-vacuity of the agreement clause: on an ordinary file ModulePath and the strict parser agree. -/
 example :
